@@ -94,11 +94,23 @@ package magic
 // corruption sensitivity (second half of C18)
 //@ lemma C18_corrupt(m bytes, p int, v int) use C18_upd, C18_diff, octal_frame: isBytes(m) && 0 <= p && p < 512 && !(148 <= p && p < 156) && 0 <= v && v <= 255 && v != m[p] && tarOK(m) ==> !tarOK(store(m, p, v))
 
+// octv: value of a string of octal digits, by prefix recursion (trusted spec)
+//@ ghostfun octv(bytes) int
+//@ axiom octv_def0(m bytes): octv(m[:0]) == 0
+//@ axiom octv_def1(m bytes, n int): 0 <= n ==> octv(m[:n+1]) == octv(m[:n]) * 8 + (m[n] - 48)
+//@ spec isOct(c) = 48 <= c && c <= 55
+// checksum field as written by POSIX / GNU / Go tar writers: six octal digits, NUL, space
+//@ spec chkField(f) = len(f) == 8 && isOct(f[0]) && isOct(f[1]) && isOct(f[2]) && isOct(f[3]) && isOct(f[4]) && isOct(f[5]) && f[6] == 0 && f[7] == 32
+//@ spec chkValue(f) = (((((f[0]-48)*8 + (f[1]-48))*8 + (f[2]-48))*8 + (f[3]-48))*8 + (f[4]-48))*8 + (f[5]-48)
+
 //@ func magic.tarParseOctal
 //@   requires len(b) <= 12
+//@   uses octv_def0, octv_def1
 //@   ensures -1 <= result
+//@   ensures [C18_octal6] chkField(b) ==> result == chkValue(b)
 //@   defines result == octalOf(b)
 //@   loop 1 invariant 0 <= ret && ret < pow8(rangeindex + 1) && rangeindex < 12
+//@   loop 1 invariant [C18_octal_inv] (forall k :: 0 <= k && k <= rangeindex ==> isOct(b[k])) && ret == octv(b[:rangeindex+1])
 
 //@ func magic.tarChksum
 //@   requires len(b) <= 4096
@@ -107,8 +119,14 @@ package magic
 //@   loop 1 invariant 0 <= unsigned && unsigned <= 255 * (rangeindex + 1) && -128 * (rangeindex + 1) <= signed && signed <= 127 * (rangeindex + 1)
 //@   loop 1 invariant [C18_sum_inv] unsigned == sumU(b[:rangeindex+1]) && signed == sumS(b[:rangeindex+1])
 
+// first header block as a conforming writer emits it (trusted format predicate): the recorded
+// checksum is the unsigned sum; the name field does not end a path component "gpkg-1".
+//@ spec noGpkg(m) = forall k :: 0 <= k && k + 8 <= 100 ==> !(m[k] == '/' && m[k+1] == 'g' && m[k+2] == 'p' && m[k+3] == 'k' && m[k+4] == 'g' && m[k+5] == '-' && m[k+6] == '1' && m[k+7] == 0)
+//@ spec ustarHeader(m) = len(m) >= 512 && chkField(m[148:156]) && chkValue(m[148:156]) == sumU(m[:512]) && noGpkg(m)
+
 //@ func magic.Tar
 //@   ensures [C18_tar_sound] result ==> tarOK(raw)
+//@   ensures [C18_tar_complete] ustarHeader(raw) ==> result
 
 // WHATWG binary data bytes, transcribed from the statement of C07.
 //@ spec isBinByte(b) = b <= 8 || b == 11 || (14 <= b && b <= 26) || (28 <= b && b <= 31)
